@@ -227,8 +227,11 @@ SUM_GEN = {
               ("US1", "TRUE", "FALSE", "TRUE", 0, "TRUE", "FALSE", 120),
               ("US2", "TRUE", "TRUE", "FALSE", 1, "FALSE", "TRUE", 250),
               ("US2", "FALSE", "FALSE", "TRUE", 0, "FALSE", "FALSE", 120),
-              ("US3", "FALSE", "TRUE", "FALSE", 1, "FALSE", "TRUE", 200)],
+              ("US3", "FALSE", "TRUE", "FALSE", 1, "FALSE", "TRUE", 200),
+              ("US2", "TRUE", "TRUE", "TRUE", 1, "FALSE", "TRUE", 150, "TRUE")],
     "thorough": [("US1", "TRUE", "TRUE", "FALSE", 1, "FALSE", "TRUE", 5000),
+                 ("US2", "TRUE", "TRUE", "TRUE", 1, "FALSE", "TRUE", 2500, "TRUE"),
+                 ("US3", "TRUE", "TRUE", "FALSE", 1, "TRUE", "FALSE", 1500, "TRUE"),
                  ("US1", "TRUE", "TRUE", "TRUE", 1, "TRUE", "TRUE", 3000),
                  ("US1", "FALSE", "FALSE", "TRUE", 0, "FALSE", "FALSE", 2000),
                  ("US2", "TRUE", "TRUE", "FALSE", 1, "FALSE", "TRUE", 5000),
@@ -238,10 +241,10 @@ SUM_GEN = {
 }
 
 
-def _sum_consts(uni, hb, ha, nf, maxerr, trunc, replay):
+def _sum_consts(uni, hb, ha, nf, maxerr, trunc, replay, logs="FALSE"):
     return [("U", "<- " + uni), ("HasBefore", "= " + hb), ("HasAfter", "= " + ha),
             ("NotFoundToo", "= " + nf), ("MaxErr", f"= {maxerr}"), ("Truncate", "= " + trunc),
-            ("Replay", "= " + replay)]
+            ("Replay", "= " + replay), ("Logs", "= " + logs)]
 
 
 def run_summarize_engine(tier):
@@ -272,7 +275,8 @@ def run_summarize_engine(tier):
     gens = []
     for n, c in enumerate(SUM_GEN[tier]):
         cfg = os.path.join(WORK, f"Gen_Summarize_{n}.cfg")
-        _cfg(cfg, "Spec", _sum_consts(*c[:7]), invs=("Dump",))
+        logs = c[8] if len(c) > 8 else "FALSE"
+        _cfg(cfg, "Spec", _sum_consts(*c[:7], logs=logs), invs=("Dump",))
         r = tlc("Gen_Summarize.tla", cfg, workers=1,
                 simulate={"num": c[7], "depth": 300, "seed": seed() * 1000 + 77 + n},
                 timeout=1800, tag=f"gensum{n}")
@@ -281,7 +285,8 @@ def run_summarize_engine(tier):
         for k, g in enumerate(got):
             g["id"] = f"{c[0]}.{n}.{k}"
             g["pipelines"] = SUM_PIPELINES
-        gens.append({"universe": c[0], "consts": list(c[1:7]), "behaviours": len(got), "wall_s": r["wall_s"]})
+        gens.append({"universe": c[0], "consts": list(c[1:7]), "log_events": logs == "TRUE",
+                     "behaviours": len(got), "wall_s": r["wall_s"]})
         streams.extend(got)
     # group by universe: Trace_Summarize takes U from the first record
     by_uni = {}
@@ -488,7 +493,9 @@ C14_GEN = {
               ("US3", "FALSE", "TRUE", "FALSE", 0, "TRUE", 100, {"verbose": 1, "show_output": False, "report_time": False}),
               ("US1np", "TRUE", "TRUE", "FALSE", 1, "FALSE", 60, {"verbose": 0, "show_output": False, "report_time": False}),
               ("US2", "TRUE", "TRUE", "FALSE", 1, "FALSE", 80, {"verbose": 0, "show_output": True, "report_time": False, "decorate": "basic"}),
-              ("US1", "TRUE", "FALSE", "FALSE", 0, "FALSE", 30, {"verbose": 0, "show_output": False, "report_time": False, "decorate": "cdata"})],
+              ("US1", "TRUE", "FALSE", "FALSE", 0, "FALSE", 30, {"verbose": 0, "show_output": False, "report_time": False, "decorate": "cdata"}),
+              ("US2", "TRUE", "TRUE", "FALSE", 1, "FALSE", 80, {"verbose": 0, "show_output": True, "report_time": False, "logs": True}),
+              ("US3", "TRUE", "FALSE", "TRUE", 0, "FALSE", 60, {"verbose": 1, "show_output": False, "report_time": False, "logs": True})],
     "thorough": [
                  ("US1", "TRUE", "TRUE", "FALSE", 1, "FALSE", 800, {"verbose": 0, "show_output": True, "report_time": False, "decorate": "basic"}),
                  ("US3", "TRUE", "FALSE", "TRUE", 1, "FALSE", 800, {"verbose": 1, "show_output": False, "report_time": False, "decorate": "basic"}),
@@ -497,7 +504,10 @@ C14_GEN = {
                  ("US2", "TRUE", "TRUE", "TRUE", 1, "FALSE", 1500, {"verbose": 0, "show_output": True, "report_time": False}),
                  ("US3", "TRUE", "TRUE", "FALSE", 1, "TRUE", 1500, {"verbose": 2, "show_output": False, "report_time": True}),
                  ("US1np", "TRUE", "TRUE", "FALSE", 1, "FALSE", 600, {"verbose": 0, "show_output": False, "report_time": False}),
-                 ("US2np", "FALSE", "TRUE", "TRUE", 1, "FALSE", 600, {"verbose": 0, "show_output": True, "report_time": False})],
+                 ("US2np", "FALSE", "TRUE", "TRUE", 1, "FALSE", 600, {"verbose": 0, "show_output": True, "report_time": False}),
+                 ("US1", "TRUE", "TRUE", "FALSE", 1, "FALSE", 800, {"verbose": 0, "show_output": True, "report_time": False, "logs": True}),
+                 ("US3", "TRUE", "TRUE", "TRUE", 1, "FALSE", 800, {"verbose": 1, "show_output": False, "report_time": False, "logs": True}),
+                 ("US2", "TRUE", "TRUE", "FALSE", 1, "FALSE", 400, {"verbose": 0, "show_output": True, "report_time": False, "decorate": "basic", "logs": True})],
 }
 
 
@@ -509,7 +519,8 @@ def check_c14(tier):
     states = 0
     for n, c in enumerate(C14_GEN[tier]):
         cfg = os.path.join(WORK, f"Gen_Reporters_{n}.cfg")
-        _cfg(cfg, "Spec", _sum_consts(c[0], c[1], c[2], c[3], c[4], c[5], "FALSE"), invs=("Dump",))
+        _cfg(cfg, "Spec", _sum_consts(c[0], c[1], c[2], c[3], c[4], c[5], "FALSE",
+                                      logs="TRUE" if c[7].get("logs") else "FALSE"), invs=("Dump",))
         r = tlc("Gen_Summarize.tla", cfg, workers=1,
                 simulate={"num": c[6], "depth": 300, "seed": seed() * 1000 + 140 + n},
                 timeout=1800, tag=f"genrep{n}")
